@@ -58,6 +58,22 @@ def main():
         rc0, o0 = sh(f"/venv/bin/python {demo_run}", cwd=wt, env=env, timeout=900)
         meta["demo_unchanged_exit"] = rc0
         rc, out = sh(f"git apply {os.path.join(dst, 'patch.diff')}", cwd=wt)
+        if rc != 0:
+            # the context of the change was touched by a later fix: commit in /repo: same change, looser context match; the stored patch
+            # is rewritten against the new context (and the demo decides below whether it still is the same change)
+            sh("git checkout -q -- hta", cwd=wt)
+            rc, out2 = sh(f"patch -p1 -F3 --no-backup-if-mismatch < {os.path.join(dst, 'patch.diff')}", cwd=wt)
+            rej = [f for f in subprocess.run("git status --short", shell=True, cwd=wt, capture_output=True, text=True).stdout.split() if f.endswith(".rej") or f.endswith(".orig")]
+            changed = subprocess.run("git diff --name-only -- hta", shell=True, cwd=wt, capture_output=True, text=True).stdout.split()
+            compiles = all(subprocess.run([sys.executable, "-m", "py_compile", os.path.join(wt, f)], capture_output=True).returncode == 0 for f in changed if f.endswith(".py"))
+            if rc == 0 and not rej and changed and compiles:
+                _, d2 = sh("git diff -- hta", cwd=wt)
+                open(os.path.join(dst, "patch.diff"), "w").write(d2 if d2.endswith("\n") else d2 + "\n")
+                meta["rebased"] = "context changed by a later fix: commit; re-applied with patch -F3 and stored again"
+            else:
+                sh("git checkout -q -- hta; git clean -fdq hta", cwd=wt)
+                rc = 1
+                out = out + out2
         meta["patch_applies"] = rc == 0
         if rc != 0:
             meta["apply_error"] = out[-500:]
